@@ -113,17 +113,32 @@ def gen_cases(ctx):
             start, end = D(sy, rnd.randrange(2, 11), rnd.randrange(1, 28)), D(sy + 7, rnd.randrange(1, 12), rnd.randrange(1, 28))
             ann = D(end.year, 9, 30)
             peryear = True
+        special = None
+        if idx == 6:
+            # the year counter runs away (F9): per-year files, the 2012 file ends on 8 January, annual output on 5 January: a yearly
+            # record every 8 days, more than 200 roll-overs (the yearly history arrays have 131 slots: F31) — every record must be written
+            special, peryear, datefmt = "runaway", True, "DateDElong"
+            sy, start, end, ann = 2011, D(2011, 12, 31), D(2018, rnd.randrange(6, 13), rnd.randrange(1, 28)), D(2018, 1, 5)
+        if ctx.thorough and idx == n - 1:
+            # more than 130 simulated years: a yearly record for every one of them
+            special, peryear, datefmt = "long", False, "DateDElong"
+            sy, start, end = 1951, D(1951, rnd.randrange(2, 6), rnd.randrange(1, 28)), D(2089, rnd.randrange(6, 12), rnd.randrange(1, 28))
+            ann = D(2089, rnd.randrange(1, 13), rnd.randrange(1, 28))
         if idx == 0:       # the shipped ex3 pattern (F16): annual date 31 Oct, non-leap end year, leap years inside
             sy, start, end, ann = 1980, D(1980, 9, 30), D(1985, 12, 31), D(1985, 10, 31)
         eff = ann + ONE if ann >= end else end
         k = rnd.choice([1, 1, 1, 2, 3, 7, 10, 30, 365, rnd.randrange(1, 401), rnd.randrange(1, 401)])
         if idx in (1, 2):
             k = 1
+        if special == "runaway":
+            k = 30
+        if special == "long":
+            k = 365
         csv = rnd.random() < 0.5
         # rotation: first entry = previous crop (harvest = start); then crops with growing seasons
         rot = [("SM", None, start)]
         t = start
-        for _ in range(rnd.randrange(0, 6)):
+        for _ in range(0 if special else rnd.randrange(0, 6)):
             sow = t + datetime.timedelta(days=rnd.randrange(5, 260))
             har = sow + datetime.timedelta(days=rnd.randrange(90, 200))
             rot.append((rnd.choice(["SM", "SOY", "WW", "WG", "ZR", "K"]), sow, har))
@@ -135,11 +150,13 @@ def gen_cases(ctx):
         yearly, yspec = _cols(rnd, G_VARS, ["AKTUELL"], rnd.randrange(0, 6))
         crop, cspec = _cols(rnd, C_VARS, ["Crop", "HarvestYear", "HarvestDOY"] + (["SowDate"] if datefmt != "DateDElong" else []), rnd.randrange(0, 5))
         earlier = ()
-        if idx % 5 == 2:
+        if special:
+            pass
+        elif idx % 5 == 2:
             earlier = ("longer",)
         elif idx % 5 == 4:
             earlier = rnd.choice([("same",), ("longer", "same"), ("longer", "longer")])
-        cases.append({"idx": idx, "peryear": peryear, "datefmt": datefmt, "earlier": earlier, "sy": sy, "start": start, "end": end, "ann": ann, "eff": eff, "k": k, "csv": csv, "rot": rot,
+        cases.append({"idx": idx, "special": special, "peryear": peryear, "datefmt": datefmt, "earlier": earlier, "sy": sy, "start": start, "end": end, "ann": ann, "eff": eff, "k": k, "csv": csv, "rot": rot,
                       "daily": daily, "yearly": yearly, "crop": crop, "spec": (dspec, yspec, cspec), "unsupported": unsupported})
     return cases
 
@@ -190,8 +207,8 @@ def _run(ctx):
     root = wxlib.make_tree(ctx, "c05")
     cases = gen_cases(ctx)
     rnd = random.Random(ctx.seed + 55)
-    lo = min(c["sy"] for c in cases)
-    hi = max(c["eff"].year for c in cases)
+    lo = min(c["sy"] for c in cases if not c.get("special"))
+    hi = max(c["eff"].year for c in cases if not c.get("special"))
     ser = wxlib.gen_series(rnd, D(lo, 1, 1), D(hi + 1, 12, 31))
     # heavy rain on every harvest day: the day is computed in several sub-steps, the crop record must still be one
     harvest_days = set(h for c in cases for _, _, h in c["rot"])
@@ -200,11 +217,20 @@ def _run(ctx):
             r["prec"] = rnd.choice(["95.0", "160.0", "61.5"])
     wcfg1 = wxlib.write_weather(root, "w", 1, "WX", ser)
     wcfg0 = wxlib.write_weather(root, "w0", 0, "WX", ser)       # the same series as one file per year (layout 0)
+    wspecial = {}
+    if any(c.get("special") == "runaway" for c in cases):
+        sr = wxlib.gen_series(rnd, D(2011, 1, 1), D(2012, 1, 8))
+        wspecial["runaway"] = (wxlib.write_weather(root, "wr", 0, "WX", sr), "wr")
+    if any(c.get("special") == "long" for c in cases):
+        sl = wxlib.gen_series(rnd, D(1951, 1, 1), D(2090, 12, 31))
+        wspecial["long"] = (wxlib.write_weather(root, "wl", 1, "WX", sl), "wl")
     lines, owner = [], []
     for c in cases:
         p = "r%03d" % c["idx"]
         dfm = c.get("datefmt", "DateDElong")
         wcfg, wfolder = (wcfg0, "w0") if c.get("peryear") else (wcfg1, "w")
+        if c.get("special"):
+            wcfg, wfolder = wspecial[c["special"]]
         cfg = dict(wcfg, WeatherFolder=wfolder, StartYear=c["sy"], EndDate=wxlib.fdate(c["end"], dfm), Dateformat=dfm, DivideCentury=50,
                    AnnualOutputDate=wxlib.fannual(c["ann"], dfm), OutputIntervall=c["k"],
                    ResultFileFormat=1 if c["csv"] else 0, ETpot=rnd.choice([1, 2, 3, 4]))
@@ -274,8 +300,9 @@ def correspond(ctx):
             c.mismatches.append({"kind": "record-date-unreadable", "case": _describe(cs)})
             continue
         st, en, an = cs["start"], cs["end"], cs["ann"]
-        ev_cases.append("(mkcase5 %d (%d, %d, %d) (%d, %d, %d) (%d, %d) %d [%s] %s %s %s %d)" % (
+        ev_cases.append("(mkcase5 %d (%d, %d, %d) (%d, %d, %d) (%d, %d) %d %s [%s] %s %s %s %d)" % (
             cs["sy"], st.day, st.month, st.year, en.day, en.month, en.year, an.day, an.month, cs["k"],
+            "[(111, 365); (112, 8)]" if cs.get("special") == "runaway" else "[]",
             "; ".join("(%d, %d, %d)" % (h.day, h.month, h.year) for _, _, h in cs["rot"]),
             "true" if run["success"] else "false",
             chunked_list(["%d%%uint63" % x for x in dd], "int"), chunked_list(["%d%%uint63" % x for x in yd], "int"), len(o["C"])))
@@ -395,6 +422,27 @@ def _annual_expected(cs):
     return out
 
 
+def _annual_runaway(cs, jtag_by_key):
+    """day loop calendar with JTAG taken from the per-year file found under the year's file NAME (path.go yearToExtension)"""
+    def key(year):
+        j = year - 1900
+        return j if j < 100 else 100 + (j % 100 if j < 1000 else (j // 10) % 100)
+    od = min(365, doy(cs["ann"]))
+    tag, j = doy(cs["start"]) - 2, cs["sy"] - 1900
+    jtag = jtag_by_key.get(key(cs["sy"]), 0)
+    out, z = [], cs["start"]
+    while z <= cs["eff"]:
+        tag += 1
+        if tag + 1 > jtag:
+            j += 1; tag = 0
+        if tag == 0:
+            jtag = jtag_by_key.get(key(1900 + j), jtag)
+        if tag + 1 == od:
+            out.append(z)
+        z += ONE
+    return out
+
+
 def _annual_f16(cs):
     """what F16 predicts: the record falls on day-of-year min(365, doy(annual date in the END year)) of every year"""
     od = min(365, doy(cs["ann"]))
@@ -435,7 +483,17 @@ def oracle(ctx, search):
         # ---- yearly
         wanty = _annual_expected(cs)
         goty = [wxlib.parse_out_date(f[0], dfm) if f else None for f, ln in o["Y"]]
-        if goty != wanty:
+        if cs.get("special") == "runaway":
+            # no civil year behind the counter any more: the yearly record is due whenever the day-of-year counter reaches the annual
+            # day — every 8 days here — also after the 131st roll-over
+            wantr = _annual_runaway(cs, {111: 365, 112: 8})
+            if goty != wantr:
+                i = next((i for i, (a, b) in enumerate(zip(goty, wantr)) if a != b), min(len(goty), len(wantr)))
+                fails.append(Fail(key="annual-records-after-many-rollovers:%d" % cs["idx"],
+                                  what="yearly file: %d records, %d are due (one per pass of the day counter over the annual day); first "
+                                       "difference at record %d: %s instead of %s" % (len(goty), len(wantr), i, goty[i] if i < len(goty) else None,
+                                                                                   wantr[i] if i < len(wantr) else None), case=desc))
+        elif goty != wanty:
             if goty == _annual_f16(cs) and (ylen(cs["eff"].year) == 366 or any(ylen(y) == 366 for y in range(cs["start"].year, cs["eff"].year + 1))):
                 diffs = sorted(set(goty) ^ set(wanty))
                 mode = "capped-365" if doy(cs["ann"]) == 366 else ("boundary-year-record" if len(goty) != len(wanty) else "displaced")
